@@ -14,6 +14,7 @@ import subprocess
 from .. import core
 from ..core import cz, cbool, cstr
 from ..runner import Entry, differential
+from . import c07_translate
 
 PRE = ("From Coq.Strings Require Import String.\nFrom EsVerif.Common Require Import Base Bytes.\n"
        "From EsVerif.C07 Require Import Model Spec Exec.\n")
@@ -120,6 +121,8 @@ def to_np(j):
         big[1::2] = a
         a = big[1::2]
         assert a.shape == shape
+    elif lay == "recarray":
+        a = a.view(np.recarray)
     return a
 
 
@@ -292,6 +295,8 @@ def gen_array(r, ctx, shape=None, nf=None, mode="any", avoid=(), names=None):
         lay = "F"
     elif p < 0.3 and len(shape) >= 1:
         lay = "strided"
+    elif p < 0.4:
+        lay = "recarray"
     return {"shape": shape, "layout": lay, "fields": gen_fields(r, shape, nf, names=names, mode=mode, avoid=avoid)}
 
 
@@ -389,6 +394,8 @@ class _Select(Entry):
             c["family"] = "%s/%s/%dd" % (kind, c["names"]["form"], len(arr["shape"]))
             if self.strict_arg:
                 c["strict"] = r.random() < 0.6
+                # strict mode is the documented default: leave the keyword out in some strict calls
+                c["omit_strict"] = c["strict"] and r.random() < 0.3
             cs.append(c)
         return cs
 
@@ -410,7 +417,8 @@ class Extract(_Select):
 
     def impl(self, c):
         import esutil.numpy_util as nu
-        return arr_out(lambda: self._call(c, lambda a, nm: nu.extract_fields(a, nm, strict=c["strict"])))
+        kw = {} if c.get("omit_strict") else {"strict": c["strict"]}
+        return arr_out(lambda: self._call(c, lambda a, nm: nu.extract_fields(a, nm, **kw)))
 
     def term(self, c, out):
         return "v_extract %s %s %s %s" % (carray(c["arr"]), cnames(c["names"]), cbool(c["strict"]), cres(out, carray))
@@ -439,7 +447,8 @@ class Reorder(_Select):
 
     def impl(self, c):
         import esutil.numpy_util as nu
-        return arr_out(lambda: self._call(c, lambda a, nm: nu.reorder_fields(a, nm, strict=c["strict"])))
+        kw = {} if c.get("omit_strict") else {"strict": c["strict"]}
+        return arr_out(lambda: self._call(c, lambda a, nm: nu.reorder_fields(a, nm, **kw)))
 
     def term(self, c, out):
         return "v_reorder %s %s %s %s" % (carray(c["arr"]), cnames(c["names"]), cbool(c["strict"]), cres(out, carray))
@@ -788,6 +797,57 @@ class Split(Entry):
             proper_nonprefix(c["arr"], c["names"]["names"])
 
 
+class SplitPlain(Entry):
+    """split_fields on an array without fields (outside the statement: correspondence only)"""
+    name = "split_fields_plain"
+
+    def cases(self, ctx, round=0):
+        r = ctx.rng
+        cs = []
+        for _ in range(ctx.n(40, 400)):
+            shape = gen_shape(r, ctx)
+            t = gen_type(r)
+            cells = [gen_item(r, t).hex() for _ in range(nelem(shape))]
+            na = None if r.random() < 0.5 else gen_form(r, r.sample(NAMES, r.randrange(0, 3)))
+            if na and na["form"] == "scalar":
+                na["npstr"] = False
+            cs.append({"plain": {"type": t, "shape": shape, "cells": cells}, "names": na, "getnames": r.random() < 0.5,
+                       "family": "plain/%s" % (na["form"] if na else "None")})
+        return cs
+
+    def impl(self, c):
+        import numpy as np
+        import esutil.numpy_util as nu
+
+        def f():
+            p = c["plain"]
+            a = np.frombuffer(bytes.fromhex("".join(p["cells"])), dtype=p["type"]).reshape(tuple(p["shape"])).copy()
+            res = nu.split_fields(a, fields=None if c["names"] is None else names_py(c["names"]), getnames=c["getnames"])
+            if not isinstance(res, tuple) or not all(isinstance(v, np.ndarray) for v in res):
+                raise AssertionError("split_fields returned %r" % (type(res),))
+            n = int(a.size)
+            views = []
+            for v in res:
+                raw = np.ascontiguousarray(v).tobytes()
+                cs_ = len(raw) // n if n else 0
+                views.append({"type": v.dtype.str, "shape": [int(s) for s in v.shape],
+                              "cells": [raw[i * cs_:(i + 1) * cs_].hex() for i in range(n)]})
+            return views
+        return run_ok(f)
+
+    def _args(self, c):
+        return "%s %s" % (cview(c["plain"]), "None" if c["names"] is None else "(Some %s)" % cnames(c["names"]))
+
+    def term(self, c, out):
+        return "v_split_plain %s %s" % (self._args(c), cres(out, lambda vs: "[%s]" % "; ".join(cview(v) for v in vs)))
+
+    def show(self, c):
+        return "split_plain " + self._args(c)
+
+    def nontrivial(self, c, out):
+        return False
+
+
 def _swap_type(t):
     o, k, n = tparse(t)
     return {"<": ">", ">": "<"}.get(o, o) + t[1:]
@@ -876,7 +936,9 @@ class Compare(Entry):
                         cells.append(b"".join(b[i:i + per] + b"\0" * (extra * unit) for i in range(0, len(b), per)).hex())
                     f["cells"] = cells
                     f["type"] = "%s%s%d" % (o, k, m + extra)
-            cs.append({"a1": a1, "a2": a2, "ignore_missing": r.random() < 0.5, "verbose": r.random() < 0.2,
+            im = r.random() < 0.5
+            cs.append({"a1": a1, "a2": a2, "ignore_missing": im, "verbose": r.random() < 0.2,
+                       "omit_kw": im and r.random() < 0.3,      # ignore_missing=True is the documented default
                        "family": "%s/%dd" % (kind, len(a1["shape"]))})
         return cs
 
@@ -887,8 +949,11 @@ class Compare(Entry):
             saved = nu.stdout
             nu.stdout = io.StringIO()          # verbose=True only writes text; keep the check's output clean
             try:
-                res = nu.compare_arrays(to_np(c["a1"]), to_np(c["a2"]), verbose=c["verbose"],
-                                        ignore_missing=c["ignore_missing"])
+                if c.get("omit_kw"):
+                    res = nu.compare_arrays(to_np(c["a1"]), to_np(c["a2"]))
+                else:
+                    res = nu.compare_arrays(to_np(c["a1"]), to_np(c["a2"]), verbose=c["verbose"],
+                                            ignore_missing=c["ignore_missing"])
             finally:
                 nu.stdout = saved
             if res is not True and res is not False:
@@ -909,7 +974,7 @@ class Compare(Entry):
         return out[0] == "ok" and len(c["a1"]["fields"]) >= 2 and nelem(c["a1"]["shape"]) >= 2
 
 
-ENTRIES = [Extract(), Remove(), Reorder(), Add(), Combine(), Copy(), CopyByName(), Split(), Compare()]
+ENTRIES = [Extract(), Remove(), Reorder(), Add(), Combine(), Copy(), CopyByName(), Split(), SplitPlain(), Compare()]
 
 TRUSTED = [
     "Coq 8.16.1 kernel (coqc, vm_compute; no native_compute); all C07 theorems are closed under the global context (no axioms)",
@@ -923,6 +988,10 @@ TRUSTED = [
     "(IEEE NaN / signed zero, NUL-padded strings, byte order); CPython isinstance dispatch",
     "not covered: element types outside int/uint/float(2,4,8)/complex(8,16)/bool/bytes/unicode, nested or padded "
     "(non-packed) dtypes, non-ASCII field names, copying between fields of the same name but different type (numpy cast)",
+    "translator harness/props/c07_translate.py (python ast -> C07/Gen.v, fail-closed): trusted to print what the source "
+    "says about the isinstance class tuples, guard operators, filter polarity, allocator, output dimensions, keyword "
+    "defaults and exception classes; Skel.v/Tie.v (proved) connect these values to Model.v; everything else of the "
+    "function bodies is hand-modelled",
     "python harness (harness/props/C07.py), literal printers (hex bytes, type strings), coqc evaluating Exec.v verdict terms",
 ]
 
@@ -937,7 +1006,25 @@ def run(ctx, replay=None):
                 "fields common and >= 2 elements; copy_fields_by_name: some but not all fields named; compare_arrays: >= 2 "
                 "fields and >= 2 elements.  distinct by canonical JSON.")
     ctx.trusted = TRUSTED
+    # 1. structural parameters of the nine functions from the source of the tree under check
+    try:
+        params, changed = c07_translate.regenerate(ctx.impl, core.COQDIR)
+        ctx.obligation("C07/Gen.v regenerated from esutil/numpy_util.py (isinstance dispatches, guards, filter "
+                       "polarity, allocator, output dimensions, defaults, exception classes)%s"
+                       % (" [changed]" if changed else ""), True)
+    except c07_translate.TranslateError as e:
+        ctx.obligation("C07/Gen.v regenerated from esutil/numpy_util.py", False, str(e))
+        ctx.violation("translation of the structural parameters of the field operations failed (fail-closed): %s" % e,
+                      {"kind": "translation", "error": str(e),
+                       "no_longer_checks": "tie of C07/Gen.v + C07_source_parameters/allocation/defaults_and_raises "
+                                           "to esutil/numpy_util.py"}, found_input=False)
+    # 2. theorems (C07_source_* are re-checked against the regenerated Gen.v)
     built = core.proof_step(ctx, "C07", core.ALLOW_DISCRETE)
+    if not built:
+        # the model and the checkers do not depend on Gen.v: keep looking for a failing input
+        ok, _log = core.coq_make(["theories/C07/Exec.vo"])
+        if not ok:
+            return
     if built and not ctx.quick() and replay is None:
         # independent re-check of the compiled proofs by the stand-alone checker
         cmd = ["timeout", "900", "coqchk", "-silent", "-o", "-Q", os.path.join(core.COQDIR, "theories"), "EsVerif",
